@@ -11,6 +11,16 @@ From Algo.Grammar Require Import CFG.
 From Algo.C11 Require Import Model ModelPrec ModelSLR ModelLR1 Spec Proofs ProofsTerm ProofsOracle ProofsPrec ProofsPrecExpr ProofsLR0 ProofsSLR ProofsCLR ProofsLALR.
 Import ListNotations.
 
+(** Callbacks.  [Parse(tokenF, prodF)] takes two optional callbacks (either may be nil) and
+    [ParseAndBuildAST] / [ParseAndEvaluate] are [Parse] with particular callbacks.  In the model
+    the callbacks are not parameters at all: [run] is a function of the table and the input only
+    and returns the sequence of events (tokens shifted, productions reduced) that the callbacks
+    would observe; [prods_of] and [ast_of] are projections of that one sequence.  Hence the
+    verdict, the production sequence and the tokens cannot depend on which callbacks are
+    installed; the harness drives Parse(nil,nil), Parse(tokenF,nil), Parse(nil,prodF),
+    Parse(tokenF,prodF), ParseAndBuildAST and ParseAndEvaluate on every input and any
+    disagreement between them (or a hang in one of them) is a kind=api mismatch. *)
+
 (** Soundness of the driver over any certified table: if [Parse] accepts [w] then [w] is a
     sentence of [G], the productions passed to the production callback are a rightmost
     derivation of [w] in reverse, and the tree built by [ParseAndBuildAST] is a parse tree of
